@@ -24,6 +24,7 @@ pub fn classify_refusal(ml: &MoveLike, info: &Info) -> &'static str {
             }
         }
         MoveLike::UciMove { .. } | MoveLike::UciNull => "fault.refuse-uci",
+        MoveLike::Unchecked(_) | MoveLike::TryUnchecked(_) => "fault.refuse-king-exposing-move",
         MoveLike::SanMove { .. } => "fault.refuse-san",
         MoveLike::UciStr(s) => {
             if !s.is_ascii() {
@@ -319,6 +320,9 @@ impl World {
                 }
             }
             SOp::TryRaw(ml) => {
+                if !crate::lib_api::unsafe_like_ok(&info, &self.searchers[idx].board, ml) {
+                    return Ok(Exec::Skipped);
+                }
                 let den = denote(&info.pos, &info.legal, ml);
                 let before = Full::of(&self.searchers[idx].board);
                 let res = match make_raw_like(&mut self.searchers[idx].board, ml) {
@@ -329,6 +333,9 @@ impl World {
                 self.stats.hit("op.s-make-raw");
                 match res {
                     Ok((amv, undo)) => {
+                        if ml.is_unsafe_built() {
+                            self.searchers[idx].tainted = true;
+                        }
                         self.judge_accept(&den, &amv, ml, &info.pos)?;
                         self.note_kind_made(&amv, false);
                         let b = self.searchers[idx].board.clone();
@@ -382,6 +389,9 @@ impl World {
     /// legal (the applied move is identified through the in-place path on a copy),
     /// argument untouched.
     pub(crate) fn functional_make(&mut self, b: &Board, info: &Info, ml: &MoveLike) -> R {
+        if !crate::lib_api::unsafe_like_ok(info, b, ml) {
+            return Ok(Exec::Skipped);
+        }
         let den = denote(&info.pos, &info.legal, ml);
         let before = Full::of(b);
         let res = match make_like(b, ml) {
